@@ -220,6 +220,14 @@ def handleSt (st : DrvState) (op : String) : P (DrvState × String) :=
         let e := jsonMode st.env o flag d
         pure (st, "ok " ++ outList (fun p => outText p.1 ++ " " ++ outText p.2) e.created ++ " " ++ outList outText e.removed ++ " " ++ outNum e.stderrLines)
       | _ => failure
+  | "m2c00" => do
+      -- drawers: (version, table index, strings index, fields index)*
+      let ds ← pList (do let v ← pNum; let i ← pNum; let j ← pNum; let k ← pNum; pure (v, i, j, k))
+      let sub ← pNum; let ver ← pNum; let data ← pBytes; pEnd
+      let drawers : List DrawerTables := ds.map fun (v, i, j, k) => { version := v, pte := st.tbls[i]!, strs := st.strs[j]!, fields := st.flds[k]! }
+      match m2c00 drawers sub ver data with
+      | some j => pure (st, "ok " ++ outJ j)
+      | none => pure (st, "unsupported format")
   | "pelraw" => do
       let c ← pSelCfg; let b ← pBytes; pEnd
       pure (st, "ok " ++ outOutcome (parsePEL st.env c b))
